@@ -1117,7 +1117,7 @@ func main() {
 			}
 
 			full := thorough || (int(args.Seed)+ki)%2 == fi
-			nSub, every := 2, 6
+			nSub, every := 2, 8
 
 			if thorough {
 				nSub, every = 6, 2
@@ -1261,7 +1261,7 @@ func main() {
 				runSeq([]int{i, j})
 
 				for k := range pool {
-					if thorough || (i+2*j+3*k+int(args.Seed))%3 == 0 {
+					if thorough || (i+2*j+3*k+int(args.Seed))%5 == 0 {
 						runSeq([]int{i, j, k})
 					}
 				}
@@ -1346,7 +1346,7 @@ func main() {
 				w.run("singlekey", c, true, tr)
 				w.semantic(r, b, c, tr)
 
-				if style == 0 && (thorough || (n+w.seed)%3 == 0) {
+				if style == 0 && (thorough || (n+w.seed)%5 == 0) {
 					w.positional(r, b, c, 2, 4, tr)
 				}
 
